@@ -75,6 +75,7 @@ class WalkOpts(object):
         # triggers of confirmed findings to avoid by construction (DESIGN 6)
         self.avoid = set()
         self.hinted = False
+        self.retarget = False
         for k, v in kw.items():
             assert hasattr(self, k), k
             setattr(self, k, v)
@@ -282,8 +283,11 @@ def draw_mutation(draw, spec, cand, feats, opts, counter):
             options.append('decimal')
         if opts.unique_changes and f['kind'] in ('Char', 'Integer', 'BigInteger'):
             options.append('unique')
+        if opts.hinted and opts.retarget and f['kind'] in ('ForeignKey', 'OneToOne') and \
+                len(targets) > 1:
+            options.append('retarget')
         if f['kind'] == 'OneToOne':
-            options = ['db_column']
+            options = ['db_column'] + (['retarget'] if 'retarget' in options else [])
         single_unique = f['unique'] or any(
             c['type'] == 'unique' and c['fields'] == [fname] for c in m['constraints']) or \
             any(list(t) == [fname] for t in m['unique_together'])
@@ -334,7 +338,10 @@ def draw_mutation(draw, spec, cand, feats, opts, counter):
             mut['attrs'] = attrs
             return mut
         for c in chosen:
-            if c == 'null':
+            if c == 'retarget':
+                others = [t for t in targets if list(t) != list(f['target'])]
+                mut['attrs']['target'] = list(draw(st.sampled_from(others)))
+            elif c == 'null':
                 mut['attrs']['null'] = not f['null']
                 if f['null']:
                     if f['kind'] in ('ForeignKey', 'OneToOne'):
@@ -460,10 +467,11 @@ def walks(draw, spec, feats=None, opts=None):
 # -- target edits for the hinted generator -----------------------------------
 
 @st.composite
-def edited_targets(draw, spec, feats=None, max_edits=4, avoid=()):
+def edited_targets(draw, spec, feats=None, max_edits=4, avoid=(), retarget=False):
     """A target spec derived from `spec` by supported edits (no renames: hints
     cannot express them; no added models: the evolver creates those)."""
     opts = WalkOpts(kinds=['AddField', 'DeleteField', 'ChangeField', 'ChangeMeta',
-                           'DeleteModel'], max_len=max_edits, avoid=set(avoid), hinted=True)
+                           'DeleteModel'], max_len=max_edits, avoid=set(avoid), hinted=True,
+                    retarget=retarget)
     seq, target = draw(walks(spec, feats, opts))
     return seq, target
